@@ -487,6 +487,7 @@ func (p *Project) WithSelectedServices(names []string, options ...DependencyOpti
 
 	// Disable all services which are not explicit target or dependencies
 	enabled := Services{}
+	var disabled []string
 	for name, s := range newProject.Services {
 		if _, ok := set[name]; ok {
 			// remove all dependencies but those implied by explicitly selected services
@@ -499,9 +500,12 @@ func (p *Project) WithSelectedServices(names []string, options ...DependencyOpti
 			s.DependsOn = dependencies
 			enabled[name] = s
 		} else {
-			newProject = newProject.WithServicesDisabled(name)
+			disabled = append(disabled, name)
 		}
 	}
+	// disable in a stable order: each disabling strips the dependencies of the services still enabled at that point
+	sort.Strings(disabled)
+	newProject = newProject.WithServicesDisabled(disabled...)
 	newProject.Services = enabled
 	return newProject, nil
 }
